@@ -473,8 +473,10 @@ def _fluid_force(
       lfrc_force *= coef
 
       # map force/torque from local to world frame: lfrc -> bfrc
-      torque_global += geom_rot @ lfrc_torque
-      force_global += geom_rot @ lfrc_force
+      bfrc_force = geom_rot @ lfrc_force
+      force_global += bfrc_force
+      # the force acts at the geom: moment about the body com
+      torque_global += geom_rot @ lfrc_torque + wp.cross(geom_pos - xipos, bfrc_force)
 
     fluid_applied_out[worldid, bodyid] = wp.spatial_vector(force_global, torque_global)
     return
